@@ -99,8 +99,8 @@ SdrShort == { Script("sdr-permanent-50", "sdr", "permanent", <<50, 300>>, Handsh
 \* C18 over real time: a call that keeps being retried until its deadline, which falls inside a back-off sleep
 MetricScripts == { Sessionless(f, r) : f \in {"temp", "garbage", "blackhole"}, r \in {<<900, 300>>, <<700, 200>>, <<1300, 150>>} }
                  \cup { InSession("temp", r) : r \in {<<900, 300>>, <<1300, 150>>} }
-                 \* a call made with a context that has already expired is still a call (and a failed one)
-                 \cup { sc \in ExpiredScripts : sc.id \in {"exp-sessionless", "exp-insession", "exp-close"} }
+                 \* (a call made with a context that has already expired is judged in the api family, on the in-memory
+                 \* transport: over a real socket the count of datagrams the BMC saw is not a reliable witness for it)
 \* histories: an earlier call on the same connection was made with a context that is still alive (an application-wide
 \* context) and outlives the later call's deadline; the later call, with its own short deadline, meets the fault
 Alive(call) == call @@ [ctx |-> [ms |-> 2500, keepAlive |-> TRUE],
